@@ -39,6 +39,11 @@ CLAIMED = {
    text="Decides the scheduling discipline structurally: debouncer/throttler state only touched under the instance lock (LK1-LK3), Wait in a predicate loop (CV2), no lost wake-up (CV3), grant consumption atomic (AT1). Every wall-clock inequality is explicitly not decided.",
    note="Trusted: time.AfterFunc / Timer.Stop / sync.Cond contracts.",
    ref="DESIGN.md section 4 C20"),
+ "C07": dict(
+   technique="who-may-call, access-path origin agreement (accessors inlined) and path rules on go/ssa over cache/lrucache.go",
+   text="Decides the structure that ties map, list and results together: exactly Add, Get and GetOldest reach the list's move primitive and move the entry they found (AG1); in every remover the key deleted from the map, the node unlinked from the list and the key/value returned derive from one origin, oldest = root.prev, youngest = root.next, front operations anchor at &root (AG7); map and list change in pairs; every path of Add after the insertion reaches count > size whose true edge evicts through RemoveOldest and returns its result (PT2/PT3); NewLRU rejects size <= 0 and size is written nowhere else; list length bookkeeping (AG4). The recency order of concrete histories is not decided.",
+   note="Trusted: go/ssa; access paths are compared syntactically after inlining pure accessors, with a no-intervening-list-write side condition per rule.",
+   ref="DESIGN.md section 3 E7, section 4 C07"),
 }
 
 NOT_YET = "check not built yet (static-analysis engines under construction; see DESIGN.md section 7)"
